@@ -138,7 +138,8 @@ func nondetSites() (string, error) {
 }
 
 // bodyClass classifies the body of a map range syntactically:
-//   collect-sorted   body is one append to a slice that the next statement sorts
+//   collect-sorted   body is one append to a slice that the next statement sorts in its natural order
+//   collect-sorted-by:<f>  ... sorts with another function (comparison supplied by the caller)
 //   collect          body is one append (not followed by a sort)
 //   delete           body is one delete(m, k)
 //   mapset           body is one m[k] = v
@@ -156,7 +157,13 @@ func bodyClass(rs *ast.RangeStmt, next ast.Stmt) string {
 					if es, ok := next.(*ast.ExprStmt); ok {
 						if c2, ok := es.X.(*ast.CallExpr); ok && strings.HasPrefix(exprText(c2.Fun), "sort.") &&
 							len(c2.Args) >= 1 && exprText(c2.Args[0]) == exprText(st.Lhs[0]) {
-							return "collect-sorted"
+							// only the natural (total, antisymmetric) orders make the sorted slice a function of
+							// the key set; a caller-supplied comparison may tie distinct keys
+							switch exprText(c2.Fun) {
+							case "sort.Strings", "sort.Ints", "sort.Float64s":
+								return "collect-sorted"
+							}
+							return "collect-sorted-by:" + exprText(c2.Fun)
 						}
 					}
 					return "collect"
